@@ -815,6 +815,9 @@ func ResultToBufferedBatches(res influxdb.Result, groupByName bool) ([]BufferedB
 		points := b.Points()
 
 		for _, v := range series.Values {
+			if len(v) < len(series.Columns) {
+				return nil, fmt.Errorf("row has %d values for %d columns", len(v), len(series.Columns))
+			}
 			fields := make(models.Fields)
 			var t time.Time
 			for i, c := range series.Columns {
@@ -839,12 +842,18 @@ func ResultToBufferedBatches(res influxdb.Result, groupByName bool) ([]BufferedB
 					value := v[i]
 					if n, ok := value.(json.Number); ok {
 						f, err := n.Float64()
-						if err == nil {
-							value = f
+						if err != nil {
+							return nil, fmt.Errorf("unexpected value for column %q: %v", c, err)
 						}
+						value = f
 					}
-					if value == nil {
+					switch value.(type) {
+					case nil:
 						continue
+					case float64, int64, uint64, string, bool, time.Time:
+					default:
+						// A field is a scalar: an array or an object is not a value any node can work with.
+						return nil, fmt.Errorf("unexpected value for column %q: %v", c, value)
 					}
 					fields[c] = value
 				}
